@@ -543,6 +543,9 @@ func runCheck(prop, tier, repo, verif, only string, updateBaseline bool) int {
 	if nViol > 0 {
 		return 1
 	}
+	if nUndecided == 0 && os.Getenv("GOVC_KEEP") == "" {
+		os.RemoveAll(outDir) // the queries of a clean run are not needed again (GOVC_KEEP=1 keeps them for inspection)
+	}
 	return 0
 }
 
